@@ -213,6 +213,14 @@ ABORT_TARGETS = [
     ("psi", [], {"op": "lib", "which": "psi", "pick": 3}),
     ("rename-gen", [_expr_step()], {"op": "rename.gen", "slot": 0}),
     ("expand-itmd", [], {"op": "lib", "which": "expand_itmd", "pick": 3}),
+    ("rename-sc-spin", [{"op": "build", "slot": 0, "targets": ["i:a"], "terms": [
+        {"pref": [1, 1], "atoms": [["nst", "w", ["i:a", "k:a", "l:b", "c:a"]],
+                                   ["nst", "u", ["k:a", "l:b", "c:a", "d:b", "d:b"]]]}]}],
+     {"op": "rename.sc", "slot": 0}),
+    ("minimize-spin", [{"op": "build", "slot": 0, "targets": ["i:a"], "terms": [
+        {"pref": [1, 1], "atoms": [["nst", "w", ["i:a", "k:a", "l:b", "c:a"]],
+                                   ["nst", "u", ["k:a", "l:b", "c:a"]]]}]}],
+     {"op": "rename.minimize", "slot": 0, "pick": 1}),
 ]
 
 
